@@ -28,8 +28,47 @@ def run_client(res, pid, bdir, lib):
     return n, diffs, out, ops, False
 
 
+def run_hp_ring(res, bdir):
+    """direct differential of the high-priority (reply) ring: static functions of cs104_slave.c vs Iec.Queues.HpQueue,
+    plus the model-free FIFO oracle HPQ_FAIL"""
+    exe = os.path.join(bdir, "srv104")
+    ops, impl, model = (os.path.join(bdir, "hq_%s.txt" % x) for x in ("ops", "impl", "model"))
+    rc, out = sh([exe, ops, impl, res.tier, "hq"], env={"VERIF_SEED": str(seed())}, timeout=3000)
+    found = False
+    def episode(upto=None):
+        data = open(ops).read().splitlines() if os.path.exists(ops) else []
+        if upto is not None:
+            data = data[:upto]
+        starts = [i for i, l in enumerate(data) if l.startswith("hq.new")]
+        ep = data[starts[-1]:] if starts else data
+        rp = os.path.join(ROOT, "replays", "C13-hp-ring-seed%d.txt" % seed())
+        os.makedirs(os.path.dirname(rp), exist_ok=True)
+        open(rp, "w").write("\n".join(ep) + "\n")
+        return rp, (ep or [""])[-1]
+    if rc != 0:
+        rp, last = episode()
+        site = asan_site(out)
+        res.violation("crash-hp-ring-%s" % (site[0] if site else "unknown"), "sanitizer abort in %s during reply-ring operation `%s` (history: %s)" % (site, last[:120], rp),
+                      {"failing_ops": rp, "sanitizer": out[-1200:]})
+        return 0, [], True, ""
+    histo = ([l for l in out.splitlines() if l.startswith("HISTO")] or [""])[-1]
+    for l in out.splitlines():
+        if l.startswith("HPQ_FAIL "):
+            m = re.search(r"ops-file offset (\d+)", l)
+            upto = None
+            if m:
+                upto = open(ops, "rb").read()[:int(m.group(1))].count(b"\n")
+            rp, last = episode(upto)
+            res.violation("hp-ring-fifo", "%s (history: %s)" % (l[9:600], rp), {"failing_ops": rp, "oracle": "harness/srv104.c hq mode (model-free)"})
+            found = True
+    run_model(ops, model)
+    n, diffs = first_diff(ops, impl, model)
+    return n, diffs, found, histo
+
+
 def run(res, pid, extra_targets=()):
     bdir = os.path.join(BUILD, pid)
+    lib = None
     proof_ok, plog = proof_stage(res, pid, extra_targets)
     tie_ok, diffs, n_ops, histo, crash, out = True, [], 0, "", None, ""
     ops, impl, model = (os.path.join(bdir, x) for x in ("ops.txt", "impl.txt", "model.txt"))
@@ -54,6 +93,18 @@ def run(res, pid, extra_targets=()):
         tie_ok = False
         res.notes.append(str(e)[-800:])
         diffs = [{"op": "<build>", "impl": str(e)[-400:], "model": ""}]
+    hq_found = False
+    if pid == "C13" and crash is None and lib is not None:
+        try:
+            hn, hdiffs, hq_found, hq_histo = run_hp_ring(res, bdir)
+            n_ops += hn
+            res.cov["hp_ring_histogram"] = hq_histo
+            if hdiffs:
+                tie_ok = False
+                diffs = diffs + [dict(d, role="hp-ring") for d in hdiffs]
+        except BuildError as e:
+            tie_ok = False
+            diffs.append({"op": "<hp ring>", "impl": str(e)[-400:], "model": ""})
     cli_out, cli_ops = "", None
     if pid in CLIENT_PROPS and crash is None:
         try:
@@ -86,7 +137,7 @@ def run(res, pid, extra_targets=()):
         k = len(ops_lines)
         res.cov["samples"] = [l[:160] for l in (ops_lines[:3] + ops_lines[k // 2: k // 2 + 3] + ops_lines[-2:])]
         res.cov["operation_histogram"] = histo
-    broken, found = [], False
+    broken, found = [], hq_found
     if not proof_ok:
         broken.append("proof obligations of lean/Iec/Props/%s.lean: %s" % (pid, "; ".join(res.cov.get("broken_obligations", [])[:3])))
     if not tie_ok:
